@@ -71,7 +71,13 @@ CHECKS["C06"] = ("model_checking", "5/C06",
          "(SettingsLaws.tla) and is evaluated by TLC on every successful result recorded from the real library (all setting forms incl. maximal salts, "
          "output fields holding junk or a longer earlier result); each distinct result is fed back to crypt_checksalt and crypt_gensalt_rn.",
          "TLC law checking + trace validation of recorded results against Shape", "salt-length caps of the man page regexes are not enforced")
-for p in ["C02", "C08", "C16", "C17", "C18", "C19", "C20"]:
+CHECKS["C18"] = ("model_checking", "5/C18",
+         "TLC enumerates every string over the specification's byte classes up to length 4 (168k strings) and checks the laws Exactly/Classes/CanHash/"
+         "TagOnly/ClassInvariance/PreferredOK; the implementation is called on EVERY byte string of length <= 3 (16.9M; printable length 4 in thorough), "
+         "aggregated by class, and TLC requires each class to have exactly the specified answer; long strings per tag, all crypt inputs, "
+         "crypt_preferred_method and NULL-vs-preferred gensalt pairs are judged by the trace specifications.",
+         "TLC exhaustive class enumeration + complete byte-string sweep judged against the specification", "hash selection = the built configuration (other selections: C19)")
+for p in ["C02", "C08", "C16", "C17", "C19", "C20"]:
     NA.setdefault(p, "check under construction in this round (see DESIGN.md section 9); not claimed until its machinery is committed")
 
 
